@@ -57,9 +57,19 @@ pub fn serialize_salted(events: &[Value], variant: usize, salt: usize) -> Doc {
             3 => if p == "c" { ["&co;", "x]]y", "]]"][n % 3].to_string() } else { ["&co;", "&nbsp;", "AT&T"][n % 3].to_string() },
             // 4: empty attribute values (character data keeps its token: text versus no text is structure)
             4 => if p == "v" { String::new() } else { format!("{}{:03}", p, n) },
+            // 27 ..: attribute values and character data are constants of the code under test (salt - 27 + token number
+            // selects one); characters that would end the value or the text are left out
+            s if s >= 27 => {
+                let lits = crate::gen::literals();
+                if lits.is_empty() {
+                    format!("{}{:03}", p, n)
+                } else {
+                    lits[(s - 27 + n) % lits.len()].replace(['<', '>', '&', '"', '\''], "")
+                }
+            }
             // 6 .. 26: long values: ASCII up to a boundary length (15 .. 4097 bytes; salt - 6 + token number selects it) and
             // multi-byte characters across the boundary
-            s if s >= 6 => {
+            s if (6..27).contains(&s) => {
                 const L: [usize; 21] = [15, 16, 17, 31, 32, 33, 63, 64, 65, 127, 128, 129, 255, 256, 257, 1023, 1024, 1025, 4095, 4096, 4097];
                 let len = L[(s - 6 + n) % 21];
                 let mut t: String = (0..len - 1 - (n % 3)).map(|i| (b'a' + (i % 26) as u8) as char).collect();
